@@ -116,6 +116,8 @@ def run(tier):
     # quick tier: the 64-bit rows and both compare-exchange rows (20-90 s each); the 8/32-bit rows (4-5 min each) are thorough-tier
     quick_rows = {'store_int64_synchronized', 'exchange_int64_synchronized', 'compare_exchange_int32_synchronized',
                   'compare_exchange_int64_synchronized', 'fetch_add_int64_synchronized'}
+    import kx
+    kx.MAX_PLAYBACK = 1 if tier == 'quick' else 3     # a playback of a masm row rebuilds dora-cannon-compiler under Kani (3-4 min)
     if os.environ.get('VERIF_SKIP_KANI') == '1':
         # self-test mode only (tools/selftest.py on mutants that do not touch the macro assembler): the Kani rows are not run and not claimed
         kv, ku, kcov, kobl = [], [], dict(kani_unit='SKIPPED (VERIF_SKIP_KANI=1, self-test mode): clause (a) not checked in this run'), (0, 0, 'skipped')
